@@ -79,6 +79,25 @@ func Build(o Options) (*Result, error) {
 			}
 			return nil, err
 		}
+		// channel-typed names of the whole package (a field declared in one file is ranged over in another)
+		pkgChans := map[string]bool{}
+		for _, e := range ents {
+			n := e.Name()
+			if e.IsDir() || !strings.HasSuffix(n, ".go") || strings.HasSuffix(n, "_test.go") {
+				continue
+			}
+			if ok, err := ctx.MatchFile(abs, n); err != nil || !ok {
+				continue
+			}
+			src := filepath.Join(abs, n)
+			if x, ok := o.Extra[filepath.Join(d, n)]; ok {
+				src = x
+			}
+			if f, err := parser.ParseFile(token.NewFileSet(), src, nil, 0); err == nil {
+				tmp := &rewriter{chanNames: pkgChans}
+				tmp.collectChanNames(f)
+			}
+		}
 		for _, e := range ents {
 			n := e.Name()
 			if e.IsDir() || !strings.HasSuffix(n, ".go") || strings.HasSuffix(n, "_test.go") {
@@ -92,7 +111,7 @@ func Build(o Options) (*Result, error) {
 			if x, ok := o.Extra[rel]; ok {
 				src = x
 			}
-			out, changed, err := rewriteFile(src, d, o.Mode, res.Sites)
+			out, changed, err := rewriteFile(src, d, o.Mode, res.Sites, pkgChans)
 			if err != nil {
 				return nil, fmt.Errorf("%s: %w", rel, err)
 			}
@@ -136,7 +155,7 @@ type rewriter struct {
 	timeUsed  bool // a time.After / time.Sleep call was redirected: keep the time import used
 }
 
-func rewriteFile(path, dir, mode string, sites map[string]int) ([]byte, bool, error) {
+func rewriteFile(path, dir, mode string, sites map[string]int, pkgChans map[string]bool) ([]byte, bool, error) {
 	fset := token.NewFileSet()
 	f, err := parser.ParseFile(fset, path, nil, parser.ParseComments)
 	if err != nil {
@@ -168,6 +187,9 @@ func rewriteFile(path, dir, mode string, sites map[string]int) ([]byte, bool, er
 		}
 	}
 	rw := &rewriter{fset: fset, sites: sites, chanNames: map[string]bool{}, full: full}
+	for k := range pkgChans {
+		rw.chanNames[k] = true
+	}
 	if full {
 		rw.collectChanNames(f)
 		rw.walk(reflect.ValueOf(f))
